@@ -216,8 +216,11 @@ class TreeOp(Operation):
         self.regions = [Region([blk])] if len(children) > 0 else []
 
 
-class FuncCallView(TreeOp):
-    __opaque_bases__ = ("func.CallOp",)
+from xdsl.dialects import func as _func  # noqa: E402
+
+
+class FuncCallView(TreeOp, _func.CallOp):
+    """a func.call (subclass of the stub's CallOp so that isinstance() recognises it)"""
 
 
 class LlvmCallView(TreeOp):
